@@ -57,10 +57,19 @@ def reset_record(dts_ranks, shapes, seplen=0):
             "nrw": 0, "nrk": -1}
 
 
+# events of other specifications (BinSearch probes, block-zero verdict, resolved filters) recorded in the same
+# file are not part of the S4Run vocabulary and are left out before validation
+S4RUN_EVENTS = {"Spawn", "WStart", "SendStart", "SendDone", "WReturn", "TempCreate", "TempRegister", "ReaderDrop", "Recv", "SelNone",
+                "FiAll", "FirstPrint", "Print", "Printed", "AddNl", "Remove", "LoopExit", "Totals", "Return", "ExitEarly", "MainExit",
+                "SigRaise", "PlanAbandoned", "HStart", "HCleared", "HRemoved", "HFlag"}
+
+
 def annotate(events, ranks):
     """Add the d (instant rank), serr and look-ahead (nrw, nrk) fields.  Pure function of the trace."""
     out = []
     for e in events:
+        if e.get("ev") not in S4RUN_EVENTS:
+            continue
         e = dict(e)
         e.pop("seq", None)
         if e["ev"] in ("SendStart", "Print"):
